@@ -115,12 +115,14 @@ func (b ByteSize) ToString(unitRune rune) (string, error) {
 	return fmt.Sprintf("%d%c", size, unitRune), nil
 }
 
+// Returns the largest unit that represents the size exactly (without a remainder),
+// so that the printed form parses back to the identical value.
 func (b ByteSize) FindLargestFittingUnit() rune {
 	largestUnitSize := int64(1)
 	largestUnitRune := 'B'
 
 	for unitRune, unitSize := range unitRuneMap {
-		if int64(b) < unitSize {
+		if int64(b) < unitSize || int64(b)%unitSize != 0 {
 			continue
 		}
 
